@@ -15,7 +15,7 @@ func init() {
 		Explanation: "Decides structural necessary conditions of C13: (R-C13-1) install => flush: every post-publication change of the active set (install, replacement, removal) is followed, before the lock is released, by a call that writes the cache; the poller's shutdown branch flushes before returning; in NewStore the flush is performed whenever a declared name had to be stubbed (flag set in the same block as the stub) and initialisation succeeded; " +
 			"(R-C13-2) one complete document: the bytes handed to Cache.Write are exactly json.Marshal of the live map Store.active.m, in one call; (R-C13-3) FileCache.Write is a single atomicfile.WriteFile(path, data, owner-only constant mode) and the package creates no other file except the cache directory (0700); " +
 			"(R-C13-4) the cache document's wire signature (computed from go/types) equals the documented one, and the file-backed client's reader type agrees with it on the \"secret\" object (Value base64, Version number); NewFileClient skips only entries with empty name, nil secret, version <= 0 or empty value and prefers TextValue only when non-empty; " +
-			"(R-C13-5) a bad cache never fails the start: no error return of NewStore depends on the cache read, its decoding or its validity, and on the decode-error and invalid edges the map is cleared before anything else uses it; (R-C13-7) the decoded map is nil-tested or re-created before anything is assigned into it (the document `null` decodes into a nil map); (R-C13-6) the validity gate rejects an empty key, a nil entry and a nil Secret for every entry -- exactly the pointer levels later code dereferences unchecked.",
+			"(R-C13-5) a bad cache never fails the start: no error return of NewStore depends on the cache read, its decoding or its validity, and on the decode-error and invalid edges the map is cleared before anything else uses it; (R-C13-7) the decoded map is nil-tested or re-created before anything is assigned into it (the document `null` decodes into a nil map); (R-C13-6) the validity gate rejects an empty key, a nil entry and a nil Secret for every entry -- exactly the pointer levels later code dereferences unchecked; (R-C13-9) FileCache.Read reads the whole file (os.ReadFile / io.ReadAll of the opened file, no bounded or partial read); (R-C13-8) Store.cache is assigned only in the Store literal, from StoreConfig.Cache (through an accessor that returns nothing else).",
 		NotDecided:  "What encoding/json does with arbitrary byte strings (no panic: trusted); crash behaviour of the file write (C04's R-C04-2 covers the routine).",
 		Trusted:     append([]string{"encoding/json never panics on malformed input and leaves a partially decoded value", "atomicfile.WriteFile is atomic (checked in C04)"}, commonTrusted...),
 		Assumptions: []string{},
@@ -145,6 +145,8 @@ func runC13(c *eng.Ctx, tier string) {
 	c13BadCache(c)
 	wholeInputJSON(c, "R-C13-5")
 	c13Validity(c)
+	c13CacheField(c)
+	c13WholeFile(c)
 	c13NilMap(c)
 }
 
@@ -913,4 +915,118 @@ func flushAlwaysWrites(c *eng.Ctx, rule string, f *ssa.Function, call *ssa.Call)
 		}
 		return "success return at " + p.Pos(hit.Pos()) + " reachable without writing: " + p.PathStr(path)
 	}())
+}
+
+// c13CacheField: R-C13-8.  The cache the store reads at start and writes
+// after every change is the one the configuration names, for every kind of
+// client, and stays that one: Store.cache is assigned only where the Store is
+// built, from StoreConfig.Cache (directly or through an accessor all of whose
+// returns yield that field).
+func c13CacheField(c *eng.Ctx) {
+	p := c.P
+	fld := storeField("cache")
+	n := 0
+	isCfgCache := func(v ssa.Value) bool {
+		fr, _, isF := eng.LoadedField(v)
+		return isF && fr.Is(setecPkg, "StoreConfig", "Cache")
+	}
+	for _, f := range p.PkgFuncs(setecPkg) {
+		for _, a := range eng.FieldAccesses(f) {
+			if !a.Write || !a.Field.Is(setecPkg, "Store", fld) {
+				continue
+			}
+			n++
+			st, isSt := a.In.(*ssa.Store)
+			if !isSt || !freshBase(a.Base) {
+				c.Bad("R-C13-8", f, a.In.Pos(), eng.InstrStr(a.In), "the store's cache is fixed when the store is built (never dropped or swapped later: every later change must still reach it)", "assigned outside the Store literal")
+				continue
+			}
+			okk := isCfgCache(st.Val)
+			detail := "value " + eng.ValStr(st.Val)
+			if call, _ := eng.TupleCall(st.Val); call != nil && !okk {
+				if h := eng.Callee(&call.Call); h != nil && h.Blocks != nil && h.Signature.Recv() != nil && eng.IsNamed(h.Signature.Recv().Type(), setecPkg, "StoreConfig") {
+					okk = true
+					for _, r := range eng.Returns(h) {
+						rv := eng.RetVals(r)
+						if len(rv) != 1 || !isCfgCache(rv[0]) {
+							okk = false
+							detail = "accessor " + eng.FName(h) + " can return " + eng.InstrStr(r)
+						}
+					}
+				}
+			}
+			c.Check(okk, "R-C13-8", f, a.In.Pos(), eng.InstrStr(a.In), "Store.cache = StoreConfig.Cache, whatever the client (a configured cache is used with a file-backed client too)", detail)
+		}
+	}
+	if n == 0 {
+		c.Undecided("R-C13-8", nil, 0, "assignment of Store."+fld, "not found")
+	}
+}
+
+// c13WholeFile: R-C13-9.  What the file cache reads back is the whole
+// document it wrote: FileCache.Read returns os.ReadFile of its path, or
+// io.ReadAll of the file it opened, and nothing on that path bounds or
+// slices the read (a document cut short does not decode, and the whole
+// active set is discarded at the next start).
+func c13WholeFile(c *eng.Ctx) {
+	p := c.P
+	rd := p.Method(setecPkg, "FileCache", "Read")
+	if rd == nil {
+		c.Undecided("R-C13-9", nil, 0, "setec.FileCache.Read", "anchor does not resolve")
+		return
+	}
+	bad := false
+	eng.InstrsDeep(rd, func(g *ssa.Function, in ssa.Instruction) {
+		ci, ok := in.(ssa.CallInstruction)
+		if !ok {
+			return
+		}
+		cc := ci.Common()
+		limited := ""
+		for _, nm := range []string{"LimitReader", "CopyN", "ReadFull", "ReadAtLeast", "NewSectionReader"} {
+			if eng.CalleeIs(cc, "io", nm) {
+				limited = "io." + nm
+			}
+		}
+		for _, nm := range []string{"*File.Read", "*File.ReadAt"} {
+			if eng.CalleeIs(cc, "os", nm) {
+				limited = "os." + nm
+			}
+		}
+		if cc.IsInvoke() && (cc.Method.Name() == "Read" || cc.Method.Name() == "ReadAt") {
+			limited = "a single " + cc.Method.Name() + " call"
+		}
+		if limited != "" {
+			bad = true
+			c.Bad("R-C13-9", g, in.Pos(), eng.CallStr(cc), "the cache file is read completely, whatever its size", "bounded read through "+limited)
+		}
+	})
+	for _, r := range eng.Returns(rd) {
+		rv := eng.RetVals(r)
+		if len(rv) != 2 || eng.IsNilConst(eng.Origin(rv[0])) {
+			continue
+		}
+		if _, isSl := eng.Origin(rv[0]).(*ssa.Slice); isSl {
+			bad = true
+			c.Bad("R-C13-9", rd, r.Pos(), eng.InstrStr(r), "the bytes read are returned whole", "a slice of them is returned")
+			continue
+		}
+		call, idx := eng.TupleCall(rv[0])
+		known := false
+		if call != nil && idx == 0 {
+			switch {
+			case eng.CalleeIs(&call.Call, "os", "ReadFile"):
+				known = true
+			case eng.CalleeIs(&call.Call, "io", "ReadAll"):
+				if oc, oi := eng.TupleCall(call.Call.Args[0]); oc != nil && oi == 0 && (eng.CalleeIs(&oc.Call, "os", "Open") || eng.CalleeIs(&oc.Call, "os", "OpenFile")) {
+					known = true
+				}
+			}
+		}
+		if known {
+			c.Ok("R-C13-9", rd, r.Pos(), eng.InstrStr(r), "whole-file read")
+		} else if !bad {
+			c.Undecided("R-C13-9", rd, r.Pos(), eng.InstrStr(r), "not a recognised whole-file read (os.ReadFile, or io.ReadAll of the opened file)")
+		}
+	}
 }
